@@ -881,6 +881,112 @@ def fn_parts(toks):
             'body_end': match_close(toks, body), 'gen_start': fn_kw + 2, 'gen_end': lp}
 
 
+
+def field_sequence(item, kind, log, root='self'):
+    """R21: the ordered list of field names a hand-written codec writes / reads.
+    kind 'write': the TOP-LEVEL statements of the function body that end in `.write(W)?` and mention exactly one `self.a.b..` path
+    -> the last field of that path (method calls at its end dropped): `self.common_fields.chain_hash.write(w)?`,
+    `(self.message_flags | 1).write(w)?`.  kind 'read': in source order (which is evaluation order), every
+    `let [mut] NAME [: T] = Readable::read(R)?;` (also `<T as Readable>::read(R)?`) and every struct-literal field
+    `NAME: Readable::read(R)?` -> NAME.  Everything else is skipped."""
+    ident = re.compile(r'^[A-Za-z_][A-Za-z_0-9]*$')
+    i = len(item) - 1
+    while i >= 0 and item[i].text != '}':
+        i -= 1
+    if i < 0:
+        raise Maintenance('R21: no function body')
+    d = 0
+    j = i
+    while j >= 0:
+        if item[j].text in (')', ']', '}'):
+            d += 1
+        elif item[j].text in OPEN:
+            d -= 1
+            if d == 0:
+                break
+        j -= 1
+    body = item[j + 1:i]
+    names = []
+    if kind == 'write':
+        stmts = []
+        cur = []
+        d = 0
+        for t in body:
+            if t.text in OPEN:
+                d += 1
+            elif t.text in (')', ']', '}'):
+                d -= 1
+            if t.text == ';' and d == 0:
+                stmts.append(cur)
+                cur = []
+            else:
+                cur.append(t)
+                if t.text == '}' and d == 0 and cur and cur[0].text in ('for', 'if', 'while', 'loop', 'match', '{'):
+                    stmts.append(cur)
+                    cur = []
+        for st in stmts:
+            tx = [t.text for t in st]
+            if len(tx) >= 8 and tx[-6:-4] == ['.', 'write'] and tx[-4] == '(' and tx[-2] == ')' and tx[-1] == '?' and tx[0] not in ('for', 'if', 'while', 'loop', 'match', '{', 'let'):
+                selfs = [k for k, x in enumerate(tx) if x == root and (k == 0 or tx[k - 1] != '.')]
+                if len(selfs) == 1:
+                    k = selfs[0] + 1
+                    chain = []
+                    while k + 1 < len(tx) and tx[k] == '.' and ident.match(tx[k + 1]):
+                        is_call = k + 2 < len(tx) and tx[k + 2] == '('
+                        if is_call:
+                            break
+                        chain.append(tx[k + 1])
+                        k += 2
+                    if chain:
+                        names.append((chain[-1], st[0].line))
+    else:
+        tx = [t.text for t in body]
+        k = 0
+        while k < len(tx):
+            def is_read(at):
+                # Readable :: read ( R ) ?   |   < T as Readable > :: read ( R ) ?
+                if tx[at:at + 3] == ['Readable', '::', 'read'] and at + 6 < len(tx) + 1 and tx[at + 3] == '(' and tx[at + 5] == ')' and at + 6 < len(tx) and tx[at + 6] == '?':
+                    return at + 7
+                if tx[at] == '<':
+                    e = at
+                    while e < len(tx) and tx[e] != '>':
+                        e += 1
+                    if e + 6 < len(tx) and tx[e - 1] == 'Readable' and tx[e - 2] == 'as' and tx[e + 1:e + 3] == ['::', 'read'] and tx[e + 3] == '(' and tx[e + 5] == ')' and tx[e + 6] == '?':
+                        return e + 7
+                return None
+            if tx[k] == 'let':
+                m = k + 1
+                if m < len(tx) and tx[m] == 'mut':
+                    m += 1
+                if m < len(tx) and ident.match(tx[m]):
+                    nm = tx[m]
+                    e = m + 1
+                    dd = 0
+                    while e < len(tx) and not (tx[e] == '=' and dd == 0) and tx[e] != ';':
+                        if tx[e] in ('<', '(', '['):
+                            dd += 1
+                        elif tx[e] in ('>', ')', ']'):
+                            dd -= 1
+                        e += 1
+                    if e < len(tx) and tx[e] == '=':
+                        end = is_read(e + 1)
+                        if end is not None and end < len(tx) and tx[end] == ';':
+                            names.append((nm, body[k].line))
+                            k = end
+                            continue
+            elif ident.match(tx[k]) and k + 1 < len(tx) and tx[k + 1] == ':' and k > 0 and tx[k - 1] in ('{', ','):
+                end = is_read(k + 2)
+                if end is not None and end < len(tx) and tx[end] in (',', '}'):
+                    names.append((tx[k], body[k].line))
+                    k = end
+                    continue
+            k += 1
+    if len(names) < 2:
+        raise Maintenance('R21: fewer than two %s statements found' % kind)
+    log.append(('R21', item[0].file, item[0].line, 'field sequence (%s): %s' % (kind, ', '.join(n for n, _ in names))))
+    return names
+
+
 def strip_ref_patterns(toks, log):
     """R16 (general form): in every `if let PAT = &EXPR` / `while let PAT = &EXPR` the explicit reference pattern is replaced by the
     same pattern under default binding modes: the `&` in front of the pattern's paths and the `ref` keywords are dropped
